@@ -9,6 +9,7 @@ validated through their hand-desugared twins instead."""
 import json, os, re, sys
 
 HERE = os.path.dirname(os.path.abspath(__file__))
+REPO = os.environ.get('ASCENT_REPO', '/repo')
 sys.path.insert(0, HERE)
 
 
@@ -217,7 +218,7 @@ def main():
         members.append(crate)
         with open(os.path.join(cdir, 'Cargo.toml'), 'w') as f:
             f.write('[package]\nname = "%s"\nversion = "0.1.0"\nedition = "2021"\n\n[dependencies]\n'
-                    'ascent = { path = "/repo/ascent" }\nascent-byods-rels = { path = "/repo/byods/ascent-byods-rels" }\n' % crate)
+                    'ascent = { path = "%s/ascent" }\nascent-byods-rels = { path = "%s/byods/ascent-byods-rels" }\n' % (crate, REPO, REPO))
         src = ['#![allow(warnings)]', '// GENERATED by /verif/corpus/gen_corpus.py - do not edit']
         for p in progs:
             src.append(render(p))
